@@ -169,6 +169,8 @@ _BUILTINS = builtins.__dict__
 class Interp(object):
     def __init__(self):
         self.trace = None
+        self.loop_cap = 100000      # iterations of one while loop; beyond: Unsupported, or loop_cap_exc when set
+        self.loop_cap_exc = None
 
     # ------------------------------------------------------------------
     # calls
@@ -355,8 +357,10 @@ class Interp(object):
             n = 0
             while self.cond(self.ev(s.test, env)):
                 n += 1
-                if n > 100000:
-                    raise Unsupported("while loop exceeds 100000 iterations")
+                if n > self.loop_cap:
+                    if self.loop_cap_exc is not None:
+                        raise self.loop_cap_exc("while loop exceeds %d iterations" % self.loop_cap)
+                    raise Unsupported("while loop exceeds %d iterations" % self.loop_cap)
                 sig = self.block(s.body, env)
                 if sig is not None:
                     if sig is BRK:
